@@ -366,6 +366,17 @@ def _damage(pi, si, pos, sep, trunc, pre_list, cached, class_only, soundness=Fal
         cls.token = orig_token
     if res[0] == 'other':
         return "%r: %s" % (text, res[1])
+    if cached:
+        # the same damaged text once more through the parser with a parse cache: the same outcome again
+        try:
+            P.parse(text)
+            again = ('ok',)
+        except ParserError as e:
+            again = ('parser_error', str(e))
+        except Exception as e:
+            again = ('other', type(e).__name__ + ': ' + str(e))
+        if again[0] != res[0] or (again[0] == 'parser_error' and again[1] != res[1]):
+            return "%r parsed a second time by a parser with a parse cache: %r, the first time %r" % (text, again, res[:2])
     if soundness:
         # accepted => the published token definitions accept every character and the published productions derive the text
         if res[0] == 'ok':
